@@ -23,6 +23,8 @@ def make_config(prop, rng, tier):
         "p_abandon": rng.choice([0.0, 0.1, 0.3]),
         "mix": rng.choice([[6, 2, 2], [3, 4, 3], [2, 2, 6], [8, 1, 1]]),   # cfg, pregroup, biclosed
         "type_depth": rng.choice([1, 2, 2, 3]), "type_len": rng.choice([1, 2, 2, 3]),
+        **({"n_productions": rng.randint(6, 11), "max_steps": 100}
+           if tier == "thorough" and rng.random() < 0.3 else {}),
     }
 
 
